@@ -353,6 +353,9 @@ fn raw_case(src: &mut Src, ctx: &mut Ctx) -> Result<(), String> {
         let lay = c.layout.as_mut().unwrap();
         for (k, d) in deps.iter().enumerate() {
             lay.insts.push(raw::Instance { inst_name: format!("i{}", k), cell: ptrs[*d].clone(), loc: raw::Point::new(0, 0), reflect_vert: false, angle: None });
+            if twice(views, i, k) {
+                lay.insts.push(raw::Instance { inst_name: format!("i{}b", k), cell: ptrs[*d].clone(), loc: raw::Point::new(5, 0), reflect_vert: false, angle: None });
+            }
         }
     }
     let mut lib = raw::Library::new("lib", raw::Units::Nano);
@@ -367,15 +370,23 @@ fn raw_order(lib: &raw::Library) -> Result<Vec<usize>, String> {
     order.iter().map(|p| index_of(&p.read().unwrap().name)).collect()
 }
 
+/// Does node `i` use its `k`-th child twice in a row? (cells commonly hold several instances of one cell)
+fn twice(views: u64, i: usize, k: usize) -> bool {
+    (views >> (32 + (i * 7 + k * 3) % 31)) & 3 == 3
+}
 /// GdsDepOrder through Library::from_gds: order of the imported cells
 fn gds_case(src: &mut Src, ctx: &mut Ctx) -> Result<(), String> {
     let (g, listing) = gen_embedded(src);
     classify(&g, &listing, ctx);
     ctx.sample("GDSII struct reference graph", || describe(&g, &listing));
     let mut lib = gds21::GdsLibrary::new("lib");
+    let views = src.u64();
     for &i in &listing {
         let mut s = gds21::GdsStruct::new(name_of(i));
         for (k, d) in g[i].iter().enumerate() {
+            if twice(views, i, k) {
+                s.elems.push(gds21::GdsElement::GdsStructRef(gds21::GdsStructRef { name: name_of(*d), xy: gds21::GdsPoint::new(7, 7), ..Default::default() }));
+            }
             if k % 2 == 0 {
                 s.elems.push(gds21::GdsElement::GdsStructRef(gds21::GdsStructRef { name: name_of(*d), xy: gds21::GdsPoint::new(0, 0), ..Default::default() }));
             } else {
@@ -420,6 +431,9 @@ fn tetris_lib(g: &Graph, listing: &[usize], views: u64) -> tet::library::Library
         let lay = c.layout.as_mut().unwrap();
         for (k, d) in deps.iter().enumerate() {
             lay.instances.add(Instance { inst_name: format!("i{}", k), cell: ptrs[*d].clone(), loc: (k as isize, 0isize).into(), reflect_horiz: false, reflect_vert: false });
+            if twice(views, i, k) {
+                lay.instances.add(Instance { inst_name: format!("i{}b", k), cell: ptrs[*d].clone(), loc: (k as isize, 1isize).into(), reflect_horiz: false, reflect_vert: false });
+            }
         }
     }
     let mut lib = tet::library::Library::new("lib");
